@@ -45,8 +45,7 @@ CLAIM = dict(
          "start-up stages on the pinned code: at_sim_start(stage >= 1) is still called on a module whose stage 0 panicked, polls its tasks, "
          "and a task can restart the module and send (corpus/C13/multistage_panic.txt, proposed patch fixes/F15.diff); the tear-down "
          "records of other modules agree only up to the final time stamp (left-over wake-ups of the dead module move the end of the "
-         "simulation) -- checked by the monitor, not proved. at_sim_end is called on panicked modules too. Completion of both runs "
-         "(model fuel) is a hypothesis of (4).",
+         "simulation) -- checked by the monitor, not proved. at_sim_end is called on panicked modules too.",
     technique="Coq: trace invariants over a step relation (panic => inactive, inactive => no records), error-list bookkeeping, and a "
               "stuttering two-run simulation with a relational reading of the interpreter; differential correspondence check; log monitor",
     design="6/C13")
